@@ -10,6 +10,7 @@ int vd_minify_main(int argc, char **argv);
 int vd_hooks_main(int argc, char **argv);
 int vd_utils_main(int argc, char **argv);
 int vd_threads_main(int argc, char **argv);
+int vd_treerand_main(int argc, char **argv);
 
 int main(int argc, char **argv)
 {
@@ -33,6 +34,7 @@ int main(int argc, char **argv)
     else if (!strcmp(mode, "hooks")) k = vd_hooks_main(argc, argv);
     else if (!strcmp(mode, "utils")) k = vd_utils_main(argc, argv);
     else if (!strcmp(mode, "threads")) k = vd_threads_main(argc, argv);
+    else if (!strcmp(mode, "treerand")) k = vd_treerand_main(argc, argv);
     else { fprintf(stderr, "vdrv: unknown mode %s\n", mode); k = 2; }
     if (VD.passthrough) fclose(VD.passthrough);
     if (VD.samplef) fclose(VD.samplef);
